@@ -290,11 +290,25 @@ func (s *IndexedState) add(ctx *Context, id string, x Map) (string, error) {
 	if err != nil {
 		return id, err
 	}
+	// If we are replacing a rule, its 'when' must leave the rule
+	// index, whatever replaces it.
+	var previousRule map[string]interface{}
+	if previous, have := s.IdToFact[id]; have {
+		if previousRule, _ = ExtractRule(ctx, previous, false); previousRule != nil {
+			if err = s.unindexRule(ctx, id, previousRule); err != nil {
+				return "", err
+			}
+		}
+	}
 	if rule != nil {
 		// ToDo: Metric(ctx, "RuleUpdated", "location", s.Name, "ruleId", id)
 		Log(DEBUG, ctx, "IndexedState.add", "state", s.Name, "rule", rule, "ruleId", id)
 		if _, scheduled := rule["schedule"]; !scheduled {
 			if err = s.indexRule(ctx, id, rule); err != nil {
+				if previousRule != nil && GetRulePatterns(ctx, previousRule) != nil {
+					// Nothing was replaced: keep dispatching the previous rule.
+					s.indexRule(ctx, id, previousRule)
+				}
 				return "", err
 			}
 		}
@@ -349,13 +363,6 @@ func (s *IndexedState) indexRule(ctx *Context, id string, rule map[string]interf
 	patterns := GetRulePatterns(ctx, rule)
 	if nil == patterns {
 		return NewSyntaxError("No 'when' in rule.")
-	}
-
-	_, have := s.IdToFact[id]
-	if have {
-		if err := s.unindexRule(ctx, id, rule); err != nil {
-			return err
-		}
 	}
 
 	for _, m := range patterns {
